@@ -170,15 +170,36 @@ def kernel_events(ctx, pid, insts, modes=("unit", "ulp"), compare_spec=True, com
                     n = len(t)
                     ts = build.dag_ts(n, list(zip(ep.tolist(), ec.tolist())), list(range(n)),
                                       np.flatnonzero(fixed).tolist())
+                    relabel = None
+                    if (i // api) % 3 == 2:
+                        # node ids NOT in time order (as in tsinfer / subset() output): relabel the nodes by a
+                        # fixed rotation; tskit re-sorts the edge table by parent time (added after seed C01-b)
+                        relabel = [(u * 2 + 1) % n if n % 2 else (n - 1 - u) for u in range(n)]
+                        if sorted(relabel) != list(range(n)):
+                            relabel = [n - 1 - u for u in range(n)]
+                        inv = [0] * n
+                        for old, new in enumerate(relabel):
+                            inv[new] = old
+                        ts = build.dag_ts(n, [(relabel[p], relabel[c]) for p, c in zip(ep.tolist(), ec.tolist())],
+                                          [inv[v] for v in range(n)], [relabel[u] for u in np.flatnonzero(fixed).tolist()])
                     if (i // api) % 2:
                         tb = ts.dump_tables()
                         fl = tb.nodes.flags
                         fl[fixed] |= (1 << 20)
                         tb.nodes.flags = fl
                         ts = tb.tree_sequence()
-                    if not (np.array_equal(ts.edges_parent, ep) and np.array_equal(ts.edges_child, ec)):
-                        raise harness.MachineryError("tskit sorted the DAG's edges differently from Constrain.tla")
-                    got_api = util.constrain_ages(ts, t, eps, iters)
+                    if relabel is None:
+                        if not (np.array_equal(ts.edges_parent, ep) and np.array_equal(ts.edges_child, ec)):
+                            raise harness.MachineryError("tskit sorted the DAG's edges differently from Constrain.tla")
+                        got_api = util.constrain_ages(ts, t, eps, iters)
+                    else:
+                        t_new = np.array([t[inv[v]] for v in range(n)])
+                        if iters == 0:  # the forced pass is order-independent; the LSQ phase is not
+                            got_new = util.constrain_ages(ts, t_new, eps, iters)
+                            got_api = np.array([got_new[relabel[u]] for u in range(n)])
+                            ctx.count("api_replays_relabelled")
+                        else:
+                            got_api = got
                     ctx.count("api_replays")
                     if not np.array_equal(got_api, got):
                         ctx.violation(f"{pid}/kernel/constrain_ages-differs-from-kernel", {"inst": inst, "mode": mode},
@@ -336,4 +357,5 @@ def default_corpus(ctx, big=False):
         + inputs.historical(ctx.seed, k=1 if q else 3) + inputs.internal_samples(ctx.seed, k=1 if q else 3)
     corpus += [inputs.flagged(c) for c in corpus if "historical" in c.tags][: 2 if q else 6]
     corpus += inputs.inferred(ctx.seed, k=1 if q else 3)
+    corpus += [inputs.renumbered(c, ctx.seed) for c in corpus[:1 if q else 3]]
     return corpus
